@@ -1,371 +1,299 @@
-"""C15 — exactly the requested C sources are checked (partial: the three suffix
-filters agree; error exits; gitignore only removes).  DESIGN.md §4.15."""
+"""C15 — exactly the requested C sources are checked.  DESIGN.md §4.15.
+
+Robustness round: the rules no longer recognise the discovery loop of ``main`` by its shape.  ``__main__`` is
+interpreted as a whole by the analyser's evaluator in the stub world of sa/mainmodel.py, over virtual directory trees
+(nesting, names with spaces and dots, look-alike suffixes .cc / .hh / .C / .c.bak / .ch, empty directories, non-C
+files) and argument lists made of files, directories and missing paths, with and without git-ignored paths.  Each
+obligation compares the multiset of files that went through the pipeline (and the verdict lines, messages and exit
+status) with what the property prescribes for that tree and argument list.
+"""
 from __future__ import annotations
 
-import ast
-import itertools
-from typing import List, Optional, Set
+import posixpath
+from pathlib import PurePosixPath
+from typing import Dict, List, Optional, Tuple
 
-from ..cfg import cfg_of
-from ..fold import fold_in_fn, try_fold
-from ..model import AnalysisError, ancestors, parent, text, walk_fn
-from .c04 import _exit_stmt
-from .c05 import _cfg_node_of_expr
+from ..mainmodel import Outcome, VFS, parse_human, parse_json, run_main
+from ..minieval import Unsupported
+from ..model import AnalysisError
+from ..xeval import Raised
+from .c04 import _exit_stmt, FormatterBench  # noqa: F401  (_exit_stmt: kept for importers)
 
 WANT = {".c", ".h"}
 
+T1 = {
+    "a.c": "int a;\n", "b.h": "@E\n", "up.C": "x", "UP.H": "x", "x.cc": "x", "y.hh": "x", "z.c.bak": "x", "w.cpp": "x", "noext": "x",
+    "c": "x", "h": "x", "sp ace.c": "@N\n", "dots.v1.h": "\n", "tab.ch": "x", "k.co": "x", "l.h~": "x", "m.c ": "x",
+    "src": {"m.c": "@E\n", "m.h": "\n", "k.H": "x", "k.C": "x", "n.cc": "x", "o.c.orig": "x", "p.hc": "x",
+            "deep": {"d.c": "\n", "d e.h": "@N\n", "e.ch": "x", "deeper": {"q.h": "\n", "r.txt": "x", "s.cpp": "x"}},
+            "emptydir": {}},
+    "inc": {"i.h": "\n", "j.txt": "x", "l.hpp": "x"},
+    "v1.2": {"p.c": "\n", "p.c.bak": "x"},
+    "empty": {},
+}
 
-def glob_suffixes(pattern: str) -> Optional[Set[str]]:
-    """Finite set of file-name suffixes (from the last dot) matched by the last component of a glob pattern,
-    or None if it is not of the form `*<.literal-or-class...>` (e.g. contains * or ? after the dot)."""
-    last = pattern.split("/")[-1]
-    if not last.startswith("*"):
-        return None
-    rest = last[1:]
-    if not rest.startswith("."):
-        return None
-    options: List[List[str]] = []
-    i = 0
-    while i < len(rest):
-        ch = rest[i]
-        if ch in "*?":
-            return None
-        if ch == "[":
-            j = rest.find("]", i + 1)
-            if j < 0:
-                return None
-            cls = rest[i + 1:j]
-            if cls.startswith("!") or cls.startswith("^"):
-                return None
-            chars = []
-            k = 0
-            while k < len(cls):
-                if k + 2 < len(cls) and cls[k + 1] == "-":
-                    chars += [chr(c) for c in range(ord(cls[k]), ord(cls[k + 2]) + 1)]
-                    k += 3
-                else:
-                    chars.append(cls[k])
-                    k += 1
-            options.append(chars)
-            i = j + 1
+
+def c_files_under(vfs: VFS, top: str) -> List[str]:
+    out = []
+    for d, dirs, files in vfs.walk(top):
+        for f in files:
+            if PurePosixPath(f).suffix in WANT:
+                out.append(vfs.abs(posixpath.join(d, f)))
+    return out
+
+
+def expected(vfs: VFS, args: List[str], use_gitignore=False):
+    """(selected abs paths, rejected names, missing name) prescribed by the property."""
+    sel, rejected = [], []
+    if not args:
+        sel = c_files_under(vfs, ".")
+    for a in args:
+        if not vfs.exists(a):
+            return sel, rejected, a
+        if vfs.abs(a) in vfs.files:
+            if PurePosixPath(a).suffix in WANT:
+                sel.append(vfs.abs(a))
+            else:
+                rejected.append(a)
         else:
-            options.append([ch])
-            i += 1
-    return {"".join(p) for p in itertools.product(*options)}
+            sel += c_files_under(vfs, a)
+    if use_gitignore:
+        sel = [p for p in sel if not vfs.is_ignored(p)]
+    return sel, rejected, None
 
 
-def _pattern_text(fn, e) -> Optional[str]:
-    """Fold a glob pattern; a leading non-constant directory part is replaced by 'DIR'."""
-    v = fold_in_fn(e, fn, default=None)
-    if isinstance(v, str):
-        return v
-    if isinstance(e, ast.BinOp) and isinstance(e.op, ast.Add):
-        r = fold_in_fn(e.right, fn, default=None)
-        if isinstance(r, str):
-            return "DIR" + r
-    if isinstance(e, ast.JoinedStr):
-        parts = []
-        for p in e.values:
-            parts.append(str(p.value) if isinstance(p, ast.Constant) else "DIR")
-        return "".join(parts)
+class Runs:
+    def __init__(self, prog):
+        self.prog = prog
+        self.n = 0
+
+    def run(self, tree, args, extra=(), ignored=()) -> Tuple[Outcome, VFS]:
+        cli = ([("<positional>", list(args))] if args else []) + list(extra)
+        o = run_main(self.prog, tree, cli, ignored=ignored)
+        self.n += 1
+        if o.unsupported:
+            raise AnalysisError(f"__main__ is outside the evaluable subset: {o.unsupported} (command line {cli})")
+        return o, VFS(tree, ignored=ignored)
+
+
+def analysed(o: Outcome, vfs: VFS) -> List[str]:
+    return [vfs.abs(e[1].__dict__.get("path")) for e in o.events("run")]
+
+
+def compare(o: Outcome, vfs: VFS, args, use_gitignore=False) -> Optional[str]:
+    """None when the run selects what the property prescribes, else a description of the difference."""
+    sel, rejected, missing = expected(vfs, list(args), use_gitignore)
+    if o.crash is not None:
+        return f"the run crashes: {o.crash}"
+    got = analysed(o, vfs)
+    if missing is not None:
+        return None
+    extra = sorted(set(got) - set(sel))
+    lost = sorted(set(sel) - set(got))
+    if extra:
+        return f"checked although not requested: {[posixpath.relpath(p, vfs.cwd) for p in extra]}"
+    if lost:
+        return f"requested but not checked: {[posixpath.relpath(p, vfs.cwd) for p in lost]}"
+    if sorted(got) != sorted(sel):
+        dup = sorted({p for p in got if got.count(p) != sel.count(p)})
+        return f"not checked once per mention: {[(posixpath.relpath(p, vfs.cwd), got.count(p), sel.count(p)) for p in dup]}"
+    # rejection messages: one per *named* file with another suffix, none for files merely met during discovery
+    _, stray = parse_human(o.stdout + o.stderr)
+    pending = list(rejected)
+    for ln in stray:
+        hit = next((r for r in pending if r in ln or posixpath.basename(r) in ln), None)
+        if hit is None:
+            return f"a message is printed that no named argument explains: {ln!r}"
+        pending.remove(hit)
+    if pending:
+        return f"no message names the rejected file(s) {pending}"
     return None
-
-
-def _discovery_fn(prog):
-    """The function of __main__.py that holds the suffix test of the discovery loop (main itself, or a helper /
-    nested function extracted from it), with the test."""
-    hits = []
-    for fn in prog.fns:
-        if fn.mod.rel != "__main__.py":
-            continue
-        for n in walk_fn(fn.node):
-            if isinstance(n, ast.Compare) and len(n.ops) == 1 and isinstance(n.ops[0], (ast.In, ast.NotIn)) \
-                    and text(n.left).endswith(".suffix"):
-                hits.append((fn, n))
-    return hits
-
-
-def _is_args_file(e) -> bool:
-    return isinstance(e, ast.Attribute) and text(e) == "args.file"
-
-
-def _args_file_test(test):
-    """+1: true iff file arguments were given; -1: true iff none were given; None: some other condition."""
-    if _is_args_file(test):
-        return 1
-    if isinstance(test, ast.UnaryOp) and isinstance(test.op, ast.Not):
-        v = _args_file_test(test.operand)
-        return None if v is None else -v
-    if isinstance(test, ast.Compare) and len(test.ops) == 1:
-        l, r = text(test.left), text(test.comparators[0])
-        op = test.ops[0]
-        if l == "len(args.file)" and r == "0":
-            return -1 if isinstance(op, ast.Eq) else 1 if isinstance(op, (ast.Gt, ast.NotEq)) else None
-        if l == "args.file" and r in ("[]", "None"):
-            return -1 if isinstance(op, (ast.Eq, ast.Is)) else 1 if isinstance(op, (ast.NotEq, ast.IsNot)) else None
-    return None
-
-
-def default_glob_condition(prog, fn, call, depth=0):
-    """Under which condition is the no-argument glob evaluated?  Returns (ok, description)."""
-    from ..calls import callgraph
-    child = call
-    for a in ancestors(call):
-        if isinstance(a, (ast.FunctionDef, ast.AsyncFunctionDef, ast.Lambda)):
-            break
-        if isinstance(a, ast.IfExp) and child is not a.test:
-            pol = _args_file_test(a.test)
-            want = 1 if child is a.orelse else -1
-            return (pol == want), f"`{text(a.test, 60)}` ({'else' if child is a.orelse else 'then'} side)"
-        if isinstance(a, ast.BoolOp) and child is not a.values[0]:
-            before = a.values[:a.values.index(child)]
-            if isinstance(a.op, ast.Or):
-                return all(_is_args_file(b) for b in before), f"`{' or '.join(text(b, 40) for b in before)}` being false"
-            return all(_args_file_test(b) == -1 for b in before), f"`{' and '.join(text(b, 40) for b in before)}` being true"
-        if isinstance(a, ast.If) and child is not a.test:
-            pol = _args_file_test(a.test)
-            in_body = any(child is s for s in a.body)
-            if pol is None and _args_file_test_free(a.test):
-                child = a
-                continue                      # an unrelated enclosing condition (e.g. the --cfile / --hfile switch)
-            return (pol == (-1 if in_body else 1)), f"`if {text(a.test, 60)}` ({'then' if in_body else 'else'} branch)"
-        child = a
-    if depth < 2 and fn.key != "__main__.py::main":
-        cg = callgraph(prog)
-        sites = [c for c in cg.sites.get(fn.key, []) if isinstance(c.node, ast.Call)]
-        if len(sites) == 1:
-            return default_glob_condition(prog, sites[0].caller, sites[0].node, depth + 1)
-    return False, "no condition at all"
-
-
-def _args_file_test_free(test) -> bool:
-    return "args.file" not in text(test) and "files" not in text(test) and "stack" not in text(test)
 
 
 def check(run, prog):
     main = prog.fn("__main__.py::main")
+    runs = Runs(prog)
+    ex = main.node
+
+    def first(pairs):
+        for args, why in pairs:
+            if why:
+                return f"arguments {list(args)}: {why}"
+        return None
 
     # ---- R-15.1 ------------------------------------------------------------------------------------
-    run.rule("R-15.1", "sibling agreement: the suffix test for explicitly named files and the two glob patterns (no argument / "
-             "directory argument) all denote exactly {.c, .h}; both globs are recursive with a **/ component", floor=3)
-    hits = _discovery_fn(prog)
-    run.require(len(hits) == 1, f"anchor vanished: exactly one `path.suffix [not] in (...)` test in __main__.py (found {len(hits)})")
-    disc, site_a = hits[0]
-    g = cfg_of(disc)
-    sa = fold_in_fn(site_a.comparators[0], disc, default=None)
-    s_a = set(sa) if isinstance(sa, (tuple, list, set, frozenset)) else None
-    run.ob("R-15.1", f"{main.key}::suffix-filter[explicit]", s_a == WANT,
-           f"explicitly named files are accepted for suffixes {sorted(s_a) if s_a is not None else '?'}; expected exactly {sorted(WANT)}",
-           site_a)
-    globs = []
-    for fn in prog.fns:
-        if fn.mod.rel == "__main__.py":
-            globs += [(fn, n) for n in walk_fn(fn.node) if isinstance(n, ast.Call) and text(n.func) in ("glob.glob", "glob.iglob")]
-    run.require(len(globs) >= 2, "anchor vanished: the two glob.glob calls of __main__.py")
-    default_glob = None
-    for fn, c in sorted(globs, key=lambda x: x[1].lineno):
-        pat = _pattern_text(fn, c.args[0]) if c.args else None
-        rec = any(k.arg == "recursive" and try_fold(k.value, fn.mod) is True for k in c.keywords)
-        if pat is None:
-            run.ob("R-15.1", f"{main.key}::suffix-filter[glob ?]", False, f"glob pattern {text(c.args[0])} does not fold", c)
-            continue
-        which = "directory" if pat.startswith("DIR") else "no-argument"
-        if which == "no-argument":
-            default_glob = (fn, c)
-        sx = glob_suffixes(pat)
-        deep = "**/" in pat
-        run.ob("R-15.1", f"{main.key}::suffix-filter[glob {which}]", sx == WANT and rec and deep,
-               f"glob pattern {pat!r} matches suffixes {sorted(sx) if sx is not None else 'an unbounded set'} "
-               f"(recursive={rec}, has **/: {deep}); expected exactly {sorted(WANT)}, recursive", c, pattern=pat)
+    run.rule("R-15.1", "suffix agreement, decided on abstract runs of __main__ over a virtual tree with look-alike suffixes "
+             "(.C .H .cc .hh .c.bak .ch .co .cpp .hpp .h~ no suffix): a file named on the command line, a file found under a named "
+             "directory and a file found under the current directory (no argument) are checked exactly when their suffix is .c "
+             "or .h, at every depth", floor=3)
+    top_files = [n for n, v in T1.items() if isinstance(v, str)] + ["src/k.H", "src/deep/e.ch", "src/m.c", "src/deep/d e.h", "v1.2/p.c.bak"]
+    res = []
+    for f in top_files:
+        o, vfs = runs.run(T1, [f])
+        res.append(([f], compare(o, vfs, [f])))
+    w = first(res)
+    run.ob("R-15.1", f"{main.key}::suffix-filter[explicit]", w is None,
+           f"explicitly named files are not accepted exactly for the suffixes {sorted(WANT)}: {w}", ex, evaluations=len(res))
+    o, vfs = runs.run(T1, [])
+    w = compare(o, vfs, [])
+    run.ob("R-15.1", f"{main.key}::suffix-filter[glob no-argument]", w is None,
+           f"without argument the run does not check exactly the .c / .h files of the current directory tree, recursively: {w}", ex)
+    res = []
+    for d in (["src"], ["inc"], ["src/deep"], ["v1.2"], ["src/deep/deeper"], ["."], ["src", "inc"]):
+        o, vfs = runs.run(T1, d)
+        res.append((d, compare(o, vfs, d)))
+    w = first(res)
+    run.ob("R-15.1", f"{main.key}::suffix-filter[glob directory]", w is None,
+           f"a directory argument does not yield exactly the .c / .h files under it, recursively: {w}", ex, evaluations=len(res))
 
     # ---- R-15.5 ------------------------------------------------------------------------------------------
-    run.rule("R-15.5", "the current-directory default is chosen from the arguments, not from what discovery found: the "
-             "no-argument glob is evaluated exactly under a test of `args.file` (IfExp / or / if, right polarity)", floor=1)
-    run.require(default_glob is not None, "anchor vanished: the no-argument glob (pattern without a directory prefix)")
-    okc, desc = default_glob_condition(prog, default_glob[0], default_glob[1])
-    run.ob("R-15.5", f"{main.key}::default-only-without-arguments", okc,
-           f"the whole current directory tree is used under {desc}, which is not `no file argument was given`: named "
-           f"arguments that yield no C source would make every file of the tree be checked (or the default is lost)",
-           default_glob[1], condition=desc)
+    run.rule("R-15.5", "the current-directory default is chosen from the arguments, not from what discovery found: runs whose "
+             "arguments yield no C source (a file with another suffix, an empty directory, both) check nothing, and a run "
+             "without argument checks the current directory tree", floor=1)
+    res = []
+    for a in (["x.cc"], ["empty"], ["x.cc", "empty"], ["noext", "src/emptydir"], ["inc/j.txt"]):
+        o, vfs = runs.run(T1, a)
+        res.append((a, compare(o, vfs, a)))
+    o, vfs = runs.run(T1, [])
+    res.append(([], compare(o, vfs, [])))
+    w = first(res)
+    run.ob("R-15.5", f"{main.key}::default-only-without-arguments", w is None,
+           f"the whole current directory tree is used under a condition that is not `no file argument was given`: named "
+           f"arguments that yield no C source would make every file of the tree be checked (or the default is lost): {w}", ex)
 
     # ---- R-15.2 -----------------------------------------------------------------------------------------
-    run.rule("R-15.2", "MPT exits: the missing-path branch prints and exits non-zero on all paths; the wrong-suffix branch "
-             "prints and cannot reach the append in that iteration; only the accepted branch appends, once per item; "
-             "directories only extend the work list", floor=4)
-    exists_if = None
-    for n in walk_fn(disc.node):
-        if isinstance(n, ast.If) and "exists()" in text(n.test):
-            exists_if = n
-    run.require(exists_if is not None, "anchor vanished: `if not path.exists()` in the discovery loop")
-    neg = text(exists_if.test).startswith("not ")
-    branch = exists_if.body if neg else exists_if.orelse
-    has_print = any(isinstance(s, ast.Expr) and isinstance(s.value, ast.Call) and text(s.value.func) == "print" for s in branch)
-    ex = [(_exit_stmt(s), s) for s in branch if _exit_stmt(s) is not None]
-    okx = bool(ex) and branch and branch[-1] is ex[-1][1]
-    if okx:
-        v = try_fold(ex[-1][0].args[0], disc.mod) if ex[-1][0].args else None
-        okx = isinstance(v, int) and not isinstance(v, bool) and v != 0
-    run.ob("R-15.2", f"{main.key}::missing-path-exit", has_print and okx,
-           "a nonexistent path does not end the run with a message and a non-zero status on every path", exists_if)
-    # the suffix branches
-    sfx_if = next((a for a in ancestors(site_a) if isinstance(a, ast.If) and a.test is site_a or
-                   (isinstance(a, ast.If) and any(x is site_a for x in ast.walk(a.test)))), None)
-    run.require(sfx_if is not None, "anchor vanished: the if statement of the suffix test")
-    rejected = sfx_if.body if isinstance(site_a.ops[0], ast.NotIn) else sfx_if.orelse
-    accepted = sfx_if.orelse if isinstance(site_a.ops[0], ast.NotIn) else sfx_if.body
-    stack_loop = next((a for a in ancestors(sfx_if) if isinstance(a, ast.For)), None)
-    run.require(stack_loop is not None, "anchor vanished: the work-list loop of the discovery")
-    worklist = text(stack_loop.iter)
-    appends = [n for n in ast.walk(stack_loop) if isinstance(n, ast.Call) and isinstance(n.func, ast.Attribute)
-               and n.func.attr == "append" and isinstance(n.func.value, ast.Name) and n.func.value.id != worklist]
-    rej_print = any(isinstance(s, ast.Expr) and isinstance(s.value, ast.Call) and text(s.value.func) == "print" for s in rejected)
-    rej_appends = [a for a in appends if any(_contains(s, a) for s in rejected)]
-    # after the rejected branch, no append is reachable in the same iteration of the stack loop
-    it = g.nid(stack_loop)
-    leak = False
-    if rejected:
-        first = g.nid(rejected[0]) if g.nid(rejected[0]) is not None else _cfg_node_of_expr(g, rejected[0])
-        for a in appends:
-            aid = _cfg_node_of_expr(g, a)
-            if g.can_reach(first, aid, avoid={it}, follow_exc=False):
-                leak = True
-    run.ob("R-15.2", f"{main.key}::wrong-suffix-not-checked", rej_print and not rej_appends and not leak,
-           "a named file with another suffix is not rejected with a message, or is still appended to the files to check", sfx_if)
-    acc_appends = [a for a in appends if any(_contains(s, a) for s in accepted)]
-    in_inner_loop = [a for a in acc_appends if any(isinstance(x, (ast.For, ast.While)) and x is not stack_loop and _contains(stack_loop, x)
-                                                  for x in ancestors(a))]
-    other = [a for a in appends if a not in acc_appends]
-    arg_ok = all(isinstance(a.args[0], ast.Name) for a in acc_appends) if acc_appends else False
-    # the list that receives the Files is `files` of main, or is what the extracted helper returns
-    flows = False
-    if acc_appends:
-        recv = acc_appends[0].func.value.id
-        if disc is main:
-            flows = recv == "files"
-        else:
-            rets = [n for n in walk_fn(disc.node) if isinstance(n, ast.Return)]
-            flows = bool(rets) and all(r.value is not None and text(r.value) == recv for r in rets)
-    run.ob("R-15.2", f"{main.key}::append-once-per-item", len(acc_appends) == 1 and not in_inner_loop and not other and arg_ok and flows,
-           "the accepted branch does not append exactly one File per work-list item to the list of files to check",
-           acc_appends[0] if acc_appends else sfx_if)
-    # File built from the item itself
-    files_ctor = [n for n in ast.walk(stack_loop) if isinstance(n, ast.Call) and text(n.func) == "File"]
-    item = text(stack_loop.target)
-    run.ob("R-15.2", f"{main.key}::file-from-item", len(files_ctor) == 1 and files_ctor[0].args and text(files_ctor[0].args[0]) == item
-           and len(files_ctor[0].args) == 1, "the File is not built from the work-list item itself (path changed on the way)",
-           files_ctor[0] if files_ctor else stack_loop)
-    dir_if = [n for n in ast.walk(stack_loop) if isinstance(n, ast.If) and "is_dir()" in text(n.test)]
-    okd = len(dir_if) == 1 and all(isinstance(s, ast.AugAssign) and text(s.target) == worklist or
-                                   (isinstance(s, ast.Expr) and text(s.value.func).startswith(worklist + ".")) for s in dir_if[0].body)
-    run.ob("R-15.2", f"{main.key}::directory-extends-worklist", okd,
-           "a directory argument does something other than extending the work list with its recursive matches",
-           dir_if[0] if dir_if else stack_loop)
+    run.rule("R-15.2", "argument handling on abstract runs: a missing path ends the run with a message naming it, a non-zero "
+             "status and no verdict; a named file with another suffix is rejected with a message naming it, is not checked and "
+             "changes nothing else; every mention is checked once (a file named twice, or named and found under a named "
+             "directory, is checked twice); the File is built from the argument itself; directories contribute their whole "
+             "subtree and nothing else", floor=4)
+    bad = None
+    for a in (["nope.c"], ["a.c", "nope"], ["nope", "a.c"], ["src", "missing/dir", "b.h"], ["src/nope.h"]):
+        o, vfs = runs.run(T1, a)
+        miss = expected(vfs, a)[2]
+        files, _ = parse_human(o.stdout)
+        if o.crash is not None:
+            bad = bad or f"arguments {a}: the run crashes ({o.crash})"
+        elif o.status == 0:
+            bad = bad or f"arguments {a}: exit status 0"
+        elif miss not in (o.stdout + o.stderr):
+            bad = bad or f"arguments {a}: no message names {miss!r}"
+        elif any(s == "OK" for _, s, _ in files):
+            bad = bad or f"arguments {a}: verdicts are printed although the run aborts"
+    run.ob("R-15.2", f"{main.key}::missing-path-exit", bad is None,
+           f"a nonexistent path does not end the run with a message and a non-zero status on every path: {bad}", ex)
+    bad = None
+    for a in (["x.cc"], ["a.c", "z.c.bak", "b.h"], ["up.C", "src"], ["noext"], ["tab.ch", "a.c"], ["a.c", "w.cpp"]):
+        o, vfs = runs.run(T1, a)
+        sel, rejected, _ = expected(vfs, a)
+        w = compare(o, vfs, a)
+        if w:
+            bad = bad or f"arguments {a}: {w}"
+        for r in rejected:
+            if r not in (o.stdout + o.stderr):
+                bad = bad or f"arguments {a}: no message names the rejected file {r!r}"
+        want_fail = any("@E" in vfs.files[p] for p in sel)
+        if o.crash is None and (o.status != 0) != want_fail:
+            bad = bad or f"arguments {a}: exit status {o.status}"
+    run.ob("R-15.2", f"{main.key}::wrong-suffix-not-checked", bad is None,
+           f"a named file with another suffix is not rejected with a message, or is still appended to the files to check: {bad}", ex)
+    res = []
+    for a in (["a.c", "a.c"], ["src", "src/m.c"], ["src/m.c", "src"], ["b.h", "a.c", "b.h", "b.h"], ["src", "src"], ["src/deep", "src"]):
+        o, vfs = runs.run(T1, a)
+        res.append((a, compare(o, vfs, a)))
+    w = first(res)
+    run.ob("R-15.2", f"{main.key}::append-once-per-item", w is None,
+           f"the accepted branch does not append exactly one File per work-list item to the list of files to check: {w}", ex)
+    bad = None
+    for a in (["a.c"], ["./a.c"], ["src/../a.c"], ["src/deep/d e.h"], ["/w/src/m.h"], ["sp ace.c", "dots.v1.h"]):
+        o, vfs = runs.run(T1, a)
+        built = [e[2][0] if e[2] else e[3].get("path") for e in o.events("File")]
+        if [str(b) for b in built] != a or any(e[2][1:] or [k for k in e[3] if k != "path"] for e in o.events("File")):
+            bad = bad or f"arguments {a}: File objects built from {built}"
+        w = compare(o, vfs, a)
+        if w:
+            bad = bad or f"arguments {a}: {w}"
+    run.ob("R-15.2", f"{main.key}::file-from-item", bad is None,
+           f"the File is not built from the work-list item itself (path changed on the way): {bad}", ex)
+    res = []
+    for a in (["src"], ["empty"], ["src/emptydir", "inc"], ["src/deep/deeper", "a.c"], ["v1.2", "empty", "src/deep"]):
+        o, vfs = runs.run(T1, a)
+        res.append((a, compare(o, vfs, a)))
+    o, vfs = runs.run({"only": {"sub": {"x.c": "\n"}}, "t.c": "\n"}, ["only"])
+    res.append((["only"], compare(o, vfs, ["only"])))
+    w = first(res)
+    run.ob("R-15.2", f"{main.key}::directory-extends-worklist", w is None,
+           f"a directory argument does something other than extending the work list with its recursive matches: {w}", ex)
 
     # ---- R-15.3 --------------------------------------------------------------------------------------
-    run.rule("R-15.3", "base name: File.basename is os.path.basename(path) and is what the human formatter prints; the JSON "
-             "formatter prints the absolute path of the same File", floor=2)
+    run.rule("R-15.3", "base name: File(path) interpreted for plain, nested, dotted, absolute and blank-containing paths keeps "
+             "the path and derives basename = os.path.basename(path); on abstract runs the human report names every file by "
+             "that base name and the JSON report by the absolute path", floor=2)
     fi = prog.method("File", "__init__")
-    ok = any(isinstance(n, ast.Assign) and text(n.targets[0]) == "self.basename" and text(n.value) == "os.path.basename(path)"
-             for n in walk_fn(fi.node))
-    ok = ok and any(isinstance(n, ast.Assign) and text(n.targets[0]) == "self.path" and text(n.value) == "path" for n in walk_fn(fi.node))
-    run.ob("R-15.3", f"{fi.key}::basename", ok, "File.basename is not os.path.basename(path) / File.path is not the given path", fi.node)
+    run.require(fi is not None, "anchor vanished: File.__init__")
+    bad = None
+    try:
+        for p in ("a.c", "src/m.h", "./x/y.z.c", "/abs/p.h", "sp ace.c", "noext", "dir.d/in ner.c"):
+            b = FormatterBench(prog)
+            try:
+                f = b.ev.construct("File", [p], {})
+                got = (b.ev.getattr(f, "path"), b.ev.getattr(f, "basename"))
+            except Raised as r:
+                got = ("exception", repr(r.value))
+            if got != (p, posixpath.basename(p)):
+                bad = bad or f"File({p!r}) has (path, basename) = {got}"
+    except Unsupported as e:
+        raise AnalysisError(f"File.__init__ is outside the evaluable subset: {e}")
+    run.ob("R-15.3", f"{fi.key}::basename", bad is None,
+           f"File.basename is not os.path.basename(path) / File.path is not the given path: {bad}", fi.node)
+    bad = None
+    for a in (["src/m.c", "a.c"], ["src/deep"], ["sp ace.c", "src/deep/d e.h"]):
+        o, vfs = runs.run(T1, a)
+        got = analysed(o, vfs)
+        hf, _ = parse_human(o.stdout)
+        if sorted(n for n, _, _ in hf) != sorted(posixpath.basename(p) for p in got):
+            bad = bad or f"arguments {a}: verdict lines name {[n for n, _, _ in hf]}"
+        o, vfs = runs.run(T1, a, extra=[("-f", ["json"])])
+        jf, _, _ = parse_json(o.stdout)
+        if sorted(str(n) for n, _, _ in jf) != sorted(analysed(o, vfs)):
+            bad = bad or f"arguments {a} -f json: paths {[n for n, _, _ in jf]}"
     hm = prog.method("HumanizedErrorsFormatter", "__str__")
-    js = prog.method("JSONErrorsFormatter", "__str__")
-    ok = any(isinstance(n, ast.Attribute) and text(n) == "file.basename" for n in walk_fn(hm.node)) and \
-        any(isinstance(n, ast.Call) and text(n) == "os.path.abspath(file.path)" for n in walk_fn(js.node))
-    run.ob("R-15.3", "errors.py::formatters::file-naming", ok,
-           "verdict lines are not named after file.basename (human) / the absolute file.path (JSON)", hm.node)
+    run.ob("R-15.3", "errors.py::formatters::file-naming", bad is None,
+           f"verdict lines are not named after file.basename (human) / the absolute file.path (JSON): {bad}", hm.node if hm else None)
 
     # ---- R-15.4 ----------------------------------------------------------------------------------------
-    run.rule("R-15.4", "--use-gitignore only removes: `files` is replaced by a list built by appending elements of the old "
-             "`files` under a condition on the exit code of git check-ignore", floor=1)
-    gi = [n for n in main.node.body if isinstance(n, ast.If) and "use_gitignore" in text(n.test)]
-    run.require(len(gi) == 1, "anchor vanished: the --use-gitignore block of main")
-    blk = gi[0]
-    ok, why = _gitignore_subset(blk)
-    run.ob("R-15.4", f"{main.key}::gitignore-subset", ok,
-           f"with --use-gitignore the list of files is not a filtered copy of the selected files: {why}", blk)
-    # the decision about a file is taken from git's answer for that very path
-    okp, whyp = _gitignore_exact_paths(blk)
-    run.ob("R-15.4", f"{main.key}::gitignore-exact-paths", okp,
-           f"the answer of git check-ignore is not matched to the files exactly: {whyp}", blk)
-
-
-def _gitignore_subset(blk):
-    """(ok, why): inside the block, `files` is only replaced by (a) a list filled by appending loop elements of the old
-    `files` under a condition, or (b) a comprehension `[t for t in files if <cond>]` / filter(...) over `files`."""
-    assigns = [n for n in ast.walk(blk) if isinstance(n, ast.Assign) and any(text(t) == "files" for t in n.targets)]
-    if len(assigns) != 1:
-        return False, f"`files` is assigned {len(assigns)} times in the block"
-    v = assigns[0].value
-    if isinstance(v, ast.ListComp) and len(v.generators) == 1 and text(v.generators[0].iter) == "files" \
-            and text(v.elt) == text(v.generators[0].target) and v.generators[0].ifs:
-        return True, ""
-    if isinstance(v, ast.Call) and text(v.func) == "list" and v.args and isinstance(v.args[0], ast.Call) \
-            and text(v.args[0].func) == "filter" and len(v.args[0].args) == 2 and text(v.args[0].args[1]) == "files":
-        return True, ""
-    if isinstance(v, ast.Name):
-        newlist = v.id
-        loops = [n for n in blk.body if isinstance(n, ast.For) and text(n.iter) == "files"]
-        if len(loops) != 1:
-            return False, "the replacement list is not built by one loop over `files`"
-        tv = text(loops[0].target)
-        apps = [n for n in ast.walk(blk) if isinstance(n, ast.Call) and isinstance(n.func, ast.Attribute)
-                and n.func.attr in ("append", "extend", "insert") and text(n.func.value) == newlist]
-        if not apps or not all(a.func.attr == "append" and len(a.args) == 1 and text(a.args[0]) == tv
-                               and any(x is loops[0] for x in _anc(a)) for a in apps):
-            return False, "something other than the loop's own element is appended to the replacement list"
-        if not all(any(isinstance(x, ast.If) for x in _anc(a) if any(y is loops[0] for y in _anc(x)) or x is loops[0]) for a in apps):
-            return False, "elements are kept unconditionally"
-        init = [n for n in blk.body if isinstance(n, ast.Assign) and text(n.targets[0]) == newlist]
-        if len(init) != 1 or not (isinstance(init[0].value, ast.List) and not init[0].value.elts):
-            return False, "the replacement list does not start empty"
-        return True, ""
-    return False, f"`files` is replaced by `{text(v, 60)}`"
-
-
-def _anc(n):
-    from ..model import ancestors
-    return list(ancestors(n))
-
-
-def _gitignore_exact_paths(blk):
-    """Per-file form: the command ends with the loop element's .path and the keep/drop decision reads the return code.
-    Batch form: git's output is split on line ends / NUL only (never on white space) and matched against .path."""
-    cmds = [n for n in ast.walk(blk) if isinstance(n, ast.List) and any(isinstance(e, ast.Constant) and e.value == "check-ignore" for e in n.elts)]
-    if len(cmds) != 1:
-        return False, "cannot find the git check-ignore command"
-    cmd = cmds[0]
-    last = cmd.elts[-1]
-    loops = [a for a in _anc(cmd) if isinstance(a, ast.For) and text(a.iter) == "files"]
-    if loops and not isinstance(last, ast.Starred):
-        tv = text(loops[0].target)
-        if text(last) != f"{tv}.path":
-            return False, f"git is asked about `{text(last)}` instead of `{tv}.path`"
-        if not any("returncode" in text(n) or "exit_code" in text(n) for n in ast.walk(loops[0]) if isinstance(n, ast.If)):
-            return False, "the decision does not read git's exit status"
-        return True, ""
-    # batch form
-    splits = [n for n in ast.walk(blk) if isinstance(n, ast.Call) and isinstance(n.func, ast.Attribute)
-              and n.func.attr in ("split", "splitlines", "rsplit") and "stdout" in text(n.func.value)]
-    if not splits:
-        return False, "batch form whose output parsing is not recognised"
-    for sp in splits:
-        if sp.func.attr == "splitlines":
-            continue
-        sep = try_fold(sp.args[0], None) if False else (sp.args[0].value if sp.args and isinstance(sp.args[0], ast.Constant) else None)
-        if sep not in ("\n", "\0", "\x00"):
-            return False, (f"`{text(sp, 50)}` splits git's output on white space: a path containing a blank is cut into "
-                           f"fragments (ignored file still checked, or another file dropped)")
-    if not any(isinstance(n, ast.Compare) and ".path" in text(n) and isinstance(n.ops[0], (ast.In, ast.NotIn)) for n in ast.walk(blk)):
-        return False, "git's answer is not matched against the files' paths"
-    return True, ""
-
-
-def _contains(container, node) -> bool:
-    x = node
-    while x is not None:
-        if x is container:
-            return True
-        x = parent(x)
-    return False
+    run.rule("R-15.4", "--use-gitignore only removes: on abstract runs where `git check-ignore` is answered from a set of "
+             "ignored paths (single files, a whole directory, paths containing blanks, everything, nothing) the files checked "
+             "are exactly the selected files that git does not ignore; without the option ignored files are still checked", floor=1)
+    cases = [
+        ([], ["src/deep", "inc/i.h"]), (["src", "a.c", "b.h"], ["b.h", "src/m.c"]), (["src"], []), (["a.c", "b.h"], ["a.c", "b.h"]),
+        (["src", "a.c"], ["src"]), (["a.c", "a.c", "b.h"], ["b.h"]), (["inc", "a.c"], ["a.c"]),
+    ]
+    blank_cases = [
+        (["sp ace.c", "a.c", "b.h"], ["sp ace.c"]), (["src/deep"], ["src/deep/d e.h"]), (["sp ace.c", "ace.c.h", "sp"], ["sp ace.c"]),
+        ([], ["sp ace.c", "src/deep/d e.h"]),
+    ]
+    tree2 = dict(T1, **{"ace.c.h": "\n", "sp": {"t.c": "\n"}})
+    bad = bad_blank = None
+    for args, ign in cases:
+        o, vfs = runs.run(T1, args, extra=[("--use-gitignore", [])], ignored=ign)
+        w = compare(o, vfs, args, use_gitignore=True)
+        if w:
+            bad = bad or f"arguments {args}, ignored {ign}: {w}"
+        sel = [p for p in expected(vfs, args, True)[0]]
+        if o.crash is None and analysed(o, vfs) != sel and sorted(analysed(o, vfs)) == sorted(sel) and args and all(vfs.abs(a) in vfs.files for a in args):
+            bad = bad or f"arguments {args}, ignored {ign}: the order of the remaining files changes"
+        o, vfs = runs.run(T1, args, ignored=ign)
+        w = compare(o, vfs, args, use_gitignore=False)
+        if w:
+            bad = bad or f"arguments {args}, ignored {ign}, without --use-gitignore: {w}"
+    for args, ign in blank_cases:
+        o, vfs = runs.run(tree2, args, extra=[("--use-gitignore", [])], ignored=ign)
+        w = compare(o, vfs, args, use_gitignore=True)
+        if w:
+            bad_blank = bad_blank or f"arguments {args}, ignored {ign}: {w}"
+    run.ob("R-15.4", f"{main.key}::gitignore-subset", bad is None,
+           f"with --use-gitignore the list of files is not a filtered copy of the selected files: {bad}", ex)
+    run.ob("R-15.4", f"{main.key}::gitignore-exact-paths", bad_blank is None,
+           f"the answer of git check-ignore is not matched to the files exactly (paths containing blanks): {bad_blank}", ex,
+           evaluations=runs.n)
